@@ -599,6 +599,119 @@ fn obs_conn(ctx: &Shared, conn: &Connection<'_, '_, SimIo>, handles: &[Op]) -> V
     })
 }
 
+// ---- C20: what do the reply helpers put on the wire? ----------------------------------------
+
+/// Always-ready loopback transport for the side session that publishes a reply.
+struct Loop {
+    rx: VecDeque<u8>,
+    tx: Vec<u8>,
+}
+
+impl ErrorType for Loop {
+    type Error = ErrorKind;
+}
+
+impl Read for Loop {
+    async fn read(&mut self, buf: &mut [u8]) -> Result<usize, ErrorKind> {
+        let n = buf.len().min(self.rx.len());
+        for b in buf.iter_mut().take(n) {
+            *b = self.rx.pop_front().unwrap();
+        }
+        Ok(n)
+    }
+}
+
+impl Write for Loop {
+    async fn write(&mut self, buf: &[u8]) -> Result<usize, ErrorKind> {
+        self.tx.extend_from_slice(buf);
+        Ok(buf.len())
+    }
+
+    async fn flush(&mut self) -> Result<(), ErrorKind> {
+        Ok(())
+    }
+}
+
+fn block_on<F: Future>(fut: F) -> F::Output {
+    let waker = Waker::from(Arc::new(NoopWaker));
+    let mut cx = Context::from_waker(&waker);
+    let mut fut = pin!(fut);
+    loop {
+        if let Poll::Ready(v) = fut.as_mut().poll(&mut cx) {
+            return v;
+        }
+    }
+}
+
+/// Publish `publication` at QoS 0 through a fresh side session and return the PUBLISH bytes.
+fn wire_image(publication: Publication<'_, &[u8]>) -> Value {
+    let mut rx = vec![0u8; 64];
+    let mut tx = vec![0u8; 70_000];
+    let mut session = Session::new(
+        ConfigBuilder::new(Buffers::new(&mut rx, &mut tx))
+            .client_id("side")
+            .unwrap()
+            .keepalive_interval(0),
+    );
+    let io = Loop { rx: VecDeque::from(vec![0x20, 0x03, 0x00, 0x00, 0x00]), tx: Vec::new() };
+    let result = block_on(async {
+        let mut conn = session.connect(io).await.map_err(|_| ())?;
+        conn.publish(publication).await.map_err(|_| ())?;
+        Ok::<Vec<u8>, ()>(conn.into_inner().tx)
+    });
+    match result {
+        Ok(all) => {
+            // skip the CONNECT of the side session
+            let mut i = 1;
+            let mut len = 0usize;
+            let mut mult = 1usize;
+            loop {
+                let b = all[i];
+                len += (b as usize & 0x7F) * mult;
+                mult *= 128;
+                i += 1;
+                if b & 0x80 == 0 {
+                    break;
+                }
+            }
+            json!({"ok": true, "bytes": all[i + len..]})
+        }
+        Err(()) => json!({"ok": false, "bytes": []}),
+    }
+}
+
+fn owned_probe<const T: usize, const C: usize>(msg: &minimq::InboundPublish<'_>) -> Value {
+    match msg.reply_owned::<T, C>() {
+        Ok(Some(target)) => {
+            let image = wire_image(target.publication(&b"reply"[..]));
+            json!({"t": T, "c": C, "r": "some", "topic": target.topic().as_bytes(),
+                   "hascd": target.correlation_data().is_some(),
+                   "cd": target.correlation_data().unwrap_or(&[]), "pub": image})
+        }
+        Ok(None) => json!({"t": T, "c": C, "r": "none", "topic": [], "hascd": false, "cd": [], "pub": {"ok": false, "bytes": []}}),
+        Err(_) => json!({"t": T, "c": C, "r": "err", "topic": [], "hascd": false, "cd": [], "pub": {"ok": false, "bytes": []}}),
+    }
+}
+
+fn reply_probe(msg: &minimq::InboundPublish<'_>) -> Value {
+    let user = [Property::UserProperty("rk", "rv")];
+    let plain = match msg.reply(&b"reply"[..]) {
+        Some(p) => wire_image(p),
+        None => json!({"ok": false, "bytes": []}),
+    };
+    let decorated = match msg.reply(&b"reply"[..]) {
+        Some(p) => wire_image(p.properties(&user).qos(QoS::AtMostOnce)),
+        None => json!({"ok": false, "bytes": []}),
+    };
+    json!({
+        "offered": msg.reply(&b""[..]).is_some(),
+        "plain": plain,
+        "decorated": decorated,
+        "owned": [owned_probe::<0, 0>(msg), owned_probe::<4, 2>(msg), owned_probe::<8, 4>(msg),
+                  owned_probe::<16, 8>(msg), owned_probe::<64, 16>(msg), owned_probe::<200, 64>(msg)],
+    })
+}
+
 fn msg_json(msg: &minimq::InboundPublish<'_>) -> Value {
     let props: Vec<Value> = msg
         .properties()
@@ -620,6 +733,7 @@ fn msg_json(msg: &minimq::InboundPublish<'_>) -> Value {
         "hascd": msg.correlation_data().is_some(),
         "cd": msg.correlation_data().map(|d| d.to_vec()).unwrap_or_default(),
         "reply": reply,
+        "probe": reply_probe(msg),
     })
 }
 
@@ -627,7 +741,7 @@ fn msg_json(msg: &minimq::InboundPublish<'_>) -> Value {
 /// code = reason code or -1, h = handle index or -1, hasmsg + msg.
 fn norm_result(r: &Value) -> Value {
     let empty_msg = json!({"topic":[],"payload":[],"qos":0,"retain":false,"props":[],
-        "hasrt":false,"rt":[],"hascd":false,"cd":[],"reply":false});
+        "hasrt":false,"rt":[],"hascd":false,"cd":[],"reply":false,"probe":{}});
     let h = r.get("h").cloned().unwrap_or(json!(-1));
     if let Some(ok) = r.get("ok") {
         let hasmsg = r.get("msg").is_some();
